@@ -15,6 +15,8 @@ pub struct ImpErr {
     pub column: usize,
     pub expression: String,
     pub display: String,
+    /// Display of the reason alone ("Parse error: ...", "Runtime error: ...")
+    pub reason_display: String,
     pub is_parse: bool,
 }
 
@@ -45,6 +47,7 @@ pub fn classify(e: &JmespathError) -> ImpErr {
         column: e.column,
         expression: e.expression.clone(),
         display: e.to_string(),
+        reason_display: e.reason.to_string(),
         is_parse,
     }
 }
@@ -435,3 +438,20 @@ pub fn data_routes_agree(sub: &str, text: &str, doc_json: &str, salt: u64) -> Re
     Ok(())
 }
 
+
+/// Does the independent reference evaluator say that this (expression, document) pair
+/// computes a non-finite aggregate (sum / avg overflowing a double), i.e. the situation of the
+/// recorded finding "non-finite aggregate reported as a parse error"?  Decided from the input
+/// alone, never from the wording of the implementation's message.
+pub fn reference_says_nonfinite(text: &str, doc_json: &str) -> bool {
+    let tree = match crate::refparse::parse(text, crate::refparse::Mode::RelaxedExpref) {
+        Ok(t) => t,
+        Err(_) => return false,
+    };
+    let doc = match J::parse(doc_json) {
+        Ok(d) => d,
+        Err(_) => return false,
+    };
+    let mut cx = crate::refeval::Ctx::default();
+    matches!(crate::refeval::eval(&tree, &doc, &mut cx), Err(crate::refeval::EvalErr::Unspecified(m)) if m.contains("non-finite"))
+}
